@@ -90,7 +90,13 @@ var (
 )
 
 func c39NewServer(readBuf int) (*mqtt.Server, error) {
+	// The default capabilities stamp every forwarded v5 PUBLISH with the seconds left of a 24 h message expiry,
+	// computed from the wall clock when the packet is written: a timing-dependent byte on the wire. Both brokers
+	// run without a server-side maximum expiry, so replies are a function of the requests alone.
+	caps := mqtt.NewDefaultServerCapabilities()
+	caps.MaximumMessageExpiryInterval = 0
 	s := mqtt.New(&mqtt.Options{
+		Capabilities:            caps,
 		ClientNetReadBufferSize: readBuf,
 		Logger:                  slog.New(slog.NewTextHandler(io.Discard, nil)),
 	})
@@ -286,6 +292,9 @@ func c39Frame(b []byte) int {
 }
 
 func (s *c39Sess) absorb(c c39Chunk) {
+	if s.ws != nil && c.err != nil {
+		c.data = nil // ReadMessage returns the received part of a message that was cut off: not a delivered message
+	}
 	if len(c.data) > 0 || (s.ws != nil && c.err == nil) {
 		if s.ws != nil && c.mt != websocket.BinaryMessage {
 			s.nonBinary++
@@ -903,6 +912,11 @@ func c39Check(c c39Case, r *evid.Rec) []evid.Disc {
 		}
 		got := ws.pkts[base:]
 		gds := c39Compare(g, what, ref[g].pkts, got, c.Ver, prefix)
+		if len(gds) == 0 && ws.closed && len(ws.buf) > 0 {
+			// The broker hands wsConn.Write whole packets only, and the client library never delivers part of a
+			// message, so a reply stream that ends inside a packet was cut by the transport.
+			gds = append(gds, evid.D("C39-ws-reply-stream-ends-mid-packet", "group %d (%s): the WebSocket connection ended with %d bytes of an incomplete %s packet received (% x..)", g, what, len(ws.buf), c39TypeName(ws.buf), ws.buf[:min(len(ws.buf), 16)]))
+		}
 		if len(gds) == 0 && ws.closed && !last && !timedOut {
 			gds = append(gds, evid.D("C39-ws-closed-early", "group %d (%s): the broker ended the WebSocket connection (%v); the TCP connection stayed open for the same requests", g, what, ws.closeErr))
 		}
